@@ -114,7 +114,7 @@ class AuthNode(c03.Node):
         return esc, list(self.events), list(self.bodies)
 
 
-def mutations(r, d, others, wrong_key, quick):
+def mutations(r, d, others, wrong_key, quick, special_pubs=()):
     """named mutants of a valid signed datagram d"""
     out = []
     n = len(d)
@@ -140,6 +140,18 @@ def mutations(r, d, others, wrong_key, quick):
         # signed by a key that is NOT the one in the datagram
         out.append(("signed-by-other-key", d[:body_end] + ec.create_signature(wrong_key, d[:body_end])))
         out.append(("key-substituted-resigned", sub + ec.create_signature(wrong_key, sub)))   # authentic for the OTHER key: must be attributed to it
+    # key substitution by keys that are special to the RECEIVER (its own key, keys of peers it has verified): nobody but their
+    # owners can sign for them, so whatever signature follows (the stale one, random bytes, a third party's) must be refused
+    for label, pub in special_pubs:
+        if klen == len(pub) and pub != d[25:25 + klen]:
+            sub = d[:25] + pub + d[25 + klen:body_end]
+            out.append(("key-substituted-%s-old-signature" % label, sub + d[body_end:]))
+            out.append(("key-substituted-%s-random-signature" % label, sub + r.randbytes(64)))
+            out.append(("key-substituted-%s-signed-by-other-key" % label, sub + ec.create_signature(wrong_key, sub)))
+            if body_end > 25 + klen + 2:
+                tam = bytearray(sub)
+                tam[r.randrange(25 + klen, body_end)] ^= 0x20
+                out.append(("key-substituted-%s-body-tampered" % label, bytes(tam) + d[body_end:]))
     for o in others[:6]:
         if len(o) >= 64:
             out.append(("signature-transplant", d[:body_end] + o[-64:]))
@@ -249,7 +261,9 @@ async def _run(ctx, ttext):
         fcoq = "[" + "; ".join(wire.fmt_coq(f) for f in fmts) + "]"
         others = [o for o in all_valid_bytes if o is not d]
         r.shuffle(others)
-        muts = [("unmutated", d)] + mutations(r, d, others, wrong_key, ctx.quick)
+        special = [("receivers-own-key", ov.my_peer.public_key.key_to_bin())]
+        special += [("verified-peers-key", p.public_key.key_to_bin()) for p in list(ov.network.verified_peers)[:1]]
+        muts = [("unmutated", d)] + mutations(r, d, others, wrong_key, ctx.quick, special)
         # replay into every other overlay of the receiver
         for j, ov2 in enumerate(B.overlays):
             if j != i:
